@@ -101,6 +101,7 @@ type Engine struct {
 	tags      []string
 	inlDepth  int
 	steps     int
+	entryTop  string
 	cfg       *Config
 	fc        *FuncContract // contract of the top-level function
 	covers    []*Obligation
@@ -334,7 +335,7 @@ func (e *Engine) wfFacts(v Val, t types.Type, st *State, out *[]string) {
 			*out = append(*out, sx("<=", lo, v.T), sx("<=", v.T, hi))
 		}
 		if u.Info()&types.IsString != 0 && v.K == KScalar && !strings.HasPrefix(v.T, "strlit") {
-			*out = append(*out, sx("<=", sx("str.len", v.T), maxLen))
+			*out = append(*out, sx("<=", sx("gs.len", v.T), maxLen))
 		}
 	case *types.Pointer, *types.Map, *types.Chan:
 		if v.K == KScalar && !isLiteral(v.T) {
